@@ -305,6 +305,42 @@ def inside_tolerant_try(func, node):
     return False
 
 
+def check_user_callables(ctx, repo):
+    """a size / condition given by the user as a callable is run on the *pattern* when the
+    expression is built: with don't-care operands and without the parse context (raw, offset) it
+    may fail in any way.  Every such call in a pack_regexp sits in a try that tolerates Exception"""
+    rule = 'R12-maybe-any'
+    n = 0
+    for cname in ('Int', 'Data', 'Bits'):
+        ci = repo.cls(cname)
+        fi = ci.methods.get('pack_regexp')
+        if fi is None:
+            continue
+        for c in ast.walk(fi.node):
+            if isinstance(c, ast.Call) and isinstance(c.func, ast.Attribute) and isinstance(c.func.value, ast.Name) and c.func.value.id == 'self' \
+                    and repo.method(ci, c.func.attr) is None and c.func.attr in repo.instance_attrs(ci):
+                n += 1
+                st = '[%s] %s' % (cname, stmt_text(c)[:100])
+                broad = False
+                parents = {}
+                for p_ in ast.walk(fi.node):
+                    for ch in ast.iter_child_nodes(p_):
+                        parents[id(ch)] = p_
+                cur = c
+                while id(cur) in parents:
+                    par = parents[id(cur)]
+                    if isinstance(par, ast.Try) and any(cur is s_ for s_ in par.body):
+                        for h in par.handlers:
+                            if h.type is None or unparse(h.type) in ('Exception', 'BaseException'):
+                                broad = True
+                    cur = par
+                if broad:
+                    ctx.holds(rule, fi, st, 'a user callable run on the pattern: any failure means "unknown"', c.lineno, clause='c')
+                else:
+                    ctx.violation(rule, fi, st, 'a callable given by the user is run on the pattern outside a try that tolerates Exception: whatever it raises there (KeyError on the missing parse context, AttributeError on a don\'t-care) makes building the expression fail', c.lineno, clause='c', witness=True)
+    ctx.unit('user_callables_on_patterns', n)
+
+
 def check_widths(ctx, repo):
     """(d) width agreement"""
     rule = 'R12-width-agreement'
@@ -419,6 +455,32 @@ def check_assembly(ctx, repo):
             ctx.violation(rule, ins, 'path [%s]' % '; '.join(sorted(gt)), 'no pattern is recorded for the chunk', ins.node.lineno, clause='a')
         if not base:
             ctx.violation(rule, ins, 'path [%s]' % '; '.join(sorted(gt)), 'the chunk is not placed in the underlying buffer (holes / collisions are lost)', ins.node.lineno, clause='a')
+        elif not lit:
+            # a pattern chunk holds its place in the buffer with a placeholder: chunks are keyed by
+            # position, so the placeholder must not be empty (the next chunk would take the same
+            # position and replace this one in the expression)
+            args = base[0].call.args
+            ph = args[2] if len(args) > 2 else None
+            st = 'is_literal=False: placeholder %s' % (canon(ph) if ph is not None else None)
+            if isinstance(ph, ast.Constant) and isinstance(ph.value, bytes) and len(ph.value) >= 1:
+                ctx.holds(rule, ins, st, 'occupies a position of its own', base[0].lineno, clause='a')
+            elif isinstance(ph, ast.Constant):
+                ctx.violation(rule, ins, st, 'an empty placeholder: the chunk does not occupy a position and the next chunk replaces it in the expression', base[0].lineno, clause='a', witness=True)
+            else:
+                zero = []
+                for cn in ('Int', 'Data', 'Bits'):
+                    f_ = repo.cls(cn).methods.get('pack_regexp')
+                    for c in (ast.walk(f_.node) if f_ is not None else []):
+                        if isinstance(c, ast.Call) and isinstance(c.func, ast.Attribute) and c.func.attr in ('append', 'insert', 'extend'):
+                            for k in c.keywords:
+                                if k.arg and ph is not None and any(isinstance(x, ast.Name) and x.id == k.arg for x in ast.walk(ph)) \
+                                        and isinstance(k.value, ast.Constant) and k.value.value in (0, b'', ''):
+                                    zero.append((f_, c))
+                if zero:
+                    f_, c = zero[0]
+                    ctx.violation(rule, f_, '%s with placeholder %s' % (stmt_text(c)[:90], canon(ph)), 'a pattern chunk that occupies no position: chunks are keyed by position, the chunk that follows takes the same one and this chunk disappears from the expression', c.lineno, clause='a', witness=True)
+                else:
+                    ctx.undecided(rule, ins, st, 'cannot see that the placeholder of a pattern chunk is never empty', base[0].lineno, clause='a')
     # (e) holes
     rule = 'R12-holes'
     # assemble_regexp and what it delegates to (a generator of the pieces, a helper)
@@ -696,7 +758,12 @@ def check(ctx):
         ctx.unit('functions')
         check_pack_regexp(ctx, cname, ci, fi)
     check_widths(ctx, repo)
+    check_user_callables(ctx, repo)
     check_assembly(ctx, repo)
+    # assemble_regexp reads the stored chunk of every recorded position (its length closes the
+    # gap arithmetic): the base insert stores exactly one chunk on every path that returns
+    from .c11 import check as c11_check
+    c11_check(ctx, parts=('store',))
     check_prefix_and_match(ctx, repo)
     check_bits(ctx, repo)
     check_any(ctx, repo)
